@@ -83,7 +83,8 @@ func (engC02) Assumptions() []string {
 	return []string{
 		"a *Row is attached at most once and never to two tables; AddRow(nil) is not generated (the statement does not define them)",
 		"when AddHeaders is called again with fewer items, any NColumns between the current widest and the widest ever is accepted",
-		"cell identity is the identity of the stored item (every scripted item is unique); the text form of items is C01's business",
+		"cell identity is the identity of the stored item (scripted items are unique except blank ones: nil and the empty string); the text form of items is C01's business",
+		"liveness of a looked-up cell is behavioural: two consecutive CellAt give the same object and a property written through it is read back through AllRows()[r-1].Cells()[c-1] (which may be a copy)",
 	}
 }
 
